@@ -21,7 +21,7 @@ except Exception:  # pragma: no cover
     z3 = None
 
 CONC_DEFAULTS = {
-    1: {"cap": 16384, "chunks": [(40, 6000)], "base": 6400, "capd": 16384, "chunksd": [(24, 9000)]},
+    1: {"cap": 16384, "chunks": [(43, 6000)], "base": 6403, "capd": 16384, "chunksd": [(29, 9000)]},  # odd offsets on purpose
     0: {"cap": 16384, "chunks": [], "base": 6400, "capd": 16384, "chunksd": []},
     2: {"cap": 16384, "chunks": [(40, 6000), (12000, 16384)], "base": 6400, "capd": 16384, "chunksd": [(24, 5000), (9000, 16000)]},
 }
@@ -333,7 +333,7 @@ def plan(pid, tr, sd):
             if wmode.has_string(t):
                 ms.append("string")
             if has_kind(t, ("array",)):
-                ms += ["array_len", "bigger_items"]
+                ms += ["array_len", "bigger_items", "array_shape_instance"]
             if has_kind(t, ("uref",)):
                 ms.append("union")
             for k, mis in enumerate(ms):
